@@ -14,6 +14,7 @@
 (* An operation is a record [op, a, n]:                                    *)
 (*   open a=mode | read n | readline | readall | lines n (n iterator calls)*)
 (*   readnum (read("*n")) | seek0 = f:seek() | seek1 a=whence = f:seek(a)  *)
+(*   readm fs=<<fmt..>> = f:read(fmt1, fmt2, ..), see IoData!FmtOp         *)
 (*   getiter (it = f:lines(), kept) | calliter (one call of the kept it)   *)
 (*   write n (payload WByte(tag,0..n-1)) | seek a=whence n=offset | flush  *)
 (*   setvbuf a=mode | close | peek (a second handle opened "r" reads all)  *)
@@ -107,6 +108,7 @@ BSeek(s, wh, off) ==
 (* A kept iterator is repeated read("*l") on ITS handle: called while that
    handle is open it returns the next line at the current cursor; once the
    handle is closed it raises (Lua 5.1 io_readline: "file is already closed") *)
+RECURSIVE BApply0(_, _, _), BReadM(_, _, _, _)
 BApply0(s, o, tag) ==
     IF o.op = "open" THEN BOpen(s, o.a)
     ELSE IF o.op = "peek" THEN BR(s, <<"data", s.f>>)
@@ -116,7 +118,7 @@ BApply0(s, o, tag) ==
     ELSE IF s.closed THEN BR(s, <<"error">>)
     ELSE IF o.op = "getiter" THEN
          (IF Readable(s.mode) THEN BR([s EXCEPT !.it = "cur"], <<"ok">>) ELSE BR(s, <<"any">>))
-    ELSE IF o.op \in {"read", "readline", "readall", "readnum", "lines"} /\ ~Readable(s.mode)
+    ELSE IF o.op \in {"read", "readline", "readall", "readnum", "readm", "lines"} /\ ~Readable(s.mode)
          THEN BR(s, IF o.op = "lines" THEN <<"any">> ELSE <<"fail">>)
     ELSE IF o.op = "write" /\ ~Writable(s.mode) THEN BR(s, <<"fail">>)
     ELSE IF o.op \in {"flush", "setvbuf"} /\ ~Writable(s.mode) THEN BR(s, <<"any">>)
@@ -135,6 +137,17 @@ BApply0(s, o, tag) ==
            [] o.op = "flush" -> BR(s, <<"ok">>)
            [] o.op = "setvbuf" -> BR(s, <<"ok">>)
            [] o.op = "close" -> BR([s EXCEPT !.closed = TRUE], <<"ok">>)
+           [] o.op = "readm" -> BReadM(s, o.fs, 1, tag)
+
+(* liolib.c g_read: the formats are processed left to right, each pushes its
+   result; the FIRST one that fails pushes nil and ends the call - later
+   formats are not evaluated and push nothing, the cursor stays where the
+   failing format left it *)
+BReadM(s, fs, i, tag) ==
+    IF i > Len(fs) THEN BR(s, <<"multi", <<>>>>)
+    ELSE LET r == BApply0(s, FmtOp(fs[i]), tag) IN
+         IF r.res[1] = "eof" THEN BR(r.s, <<"multi", <<r.res>>>>)
+         ELSE LET t == BReadM(r.s, fs, i + 1, tag) IN BR(t.s, <<"multi", <<r.res>> \o t.res[2]>>)
 
 BApply(s, o, tag) == BApply0(s, NormOp(o), tag)
 =============================================================================
